@@ -224,6 +224,20 @@ NEEDS = {
     "C12-r6-2": "weak memory model only (loom): the slot release store in MessageBorrow::drop Relaxed instead of Release, with slot reuse",
     "C20-r6-1": "two keyed removals in a particular arrangement, e.g. insert 5, insert 9, insert 3, extract(9), extract(3) (sift_up compares key components instead of the UniqueKey)",
     "C20-r6-2": "exactly a multiple of 2^32 insertions between issuing a key and the reuse of its slot (epochs compared after `as u32`)",
+    "C01-r7-1": "step_until with an absolute deadline in the past but within the same whole second as the current time (guard compares as_secs())",
+    "C01-r7-2": "keyed periodic action, period not a whole number of milliseconds, >= 3 occurrences (the re-armed clone carries a truncated period)",
+    "C03-r7-1": "Output with >= 2 receivers, an earlier broadcast on the port, the last-connected receiver's mailbox full at the first poll (last reused slot keeps a stale Some)",
+    "C03-r7-2": "fan-out >= 2 where a sender future has to wait for mailbox space (the cloned broadcaster's task set notifies the original's wake sink: nobody is registered there)",
+    "C06-r7-1": "Mailbox::with_capacity(n), n not a power of two, partially filled at the stall (Queue::len masks with capacity-1)",
+    "C06-r7-2": "a hierarchical bench (add_submodel) that deadlocks: names taken from model_names at the observer's position (different registration orders)",
+    "C09-r7-1": "periodic keyed event scheduled from a model, an earlier same-time event of that model cancelling it, multi-threaded executor (scheduled under the global origin id)",
+    "C09-r7-2": "a lone keyed one-shot event (spawn_and_forget path) cancelled during its own step by an event the model processes first (generator gets a fresh key)",
+    "C11-r7-1": "the failing model owns sub-models (its ModelId is taken before build() registers them)",
+    "C11-r7-2": "single-threaded executor on the caller's thread: a first simulation panics, a second model-less simulation on the same thread then hits a dropped mailbox (CURRENT_MODEL_ID not cleared)",
+    "C17-r7-1": "EventBuffer::with_capacity_closed(n > 16), opened later, > 16 events between reads",
+    "C17-r7-2": "EventSlot::close() followed by a write before open() (close stores true)",
+    "C19-r7-1": "a driver-side query reply written but never read: ReplyReceiver dropped without take(), or the step fails after the reply (SlotReader::drop tests state == POPULATED)",
+    "C19-r7-2": "a task woken twice while scheduled (join of two sends on two full mailboxes, both receivers dropped) then cancelled by drop(simu) (runnable_exists tests WAKE_INC instead of WAKE_MASK)",
     "C19-2": "output with >= 2 connections, a full target mailbox, simulation dropped while the broadcast is pending (ManuallyDrop not released)",
 }
 
@@ -242,7 +256,7 @@ def _needs_from_notes(d):
 def main():
     os.makedirs(DST, exist_ok=True)
     n = 0
-    for cj in sorted(glob.glob(os.path.join(SRC, "C*", "*", "confirm.json")) + glob.glob(os.path.join("/tmp/mutout2", "C*", "*", "confirm.json")) + glob.glob(os.path.join("/tmp/mutout3", "C*", "*", "confirm.json")) + glob.glob(os.path.join("/tmp/mutout4", "C*", "*", "confirm.json")) + glob.glob(os.path.join("/tmp/mutout5", "C*", "*", "confirm.json")) + glob.glob(os.path.join("/tmp/mutout6", "C*", "*", "confirm.json")) + glob.glob(os.path.join("/tmp/mutout7", "C*", "*", "confirm.json"))):
+    for cj in sorted(glob.glob(os.path.join(SRC, "C*", "*", "confirm.json")) + glob.glob(os.path.join("/tmp/mutout2", "C*", "*", "confirm.json")) + glob.glob(os.path.join("/tmp/mutout3", "C*", "*", "confirm.json")) + glob.glob(os.path.join("/tmp/mutout4", "C*", "*", "confirm.json")) + glob.glob(os.path.join("/tmp/mutout5", "C*", "*", "confirm.json")) + glob.glob(os.path.join("/tmp/mutout6", "C*", "*", "confirm.json")) + glob.glob(os.path.join("/tmp/mutout7", "C*", "*", "confirm.json")) + glob.glob(os.path.join("/tmp/mutout8", "C*", "*", "confirm.json"))):
         d = os.path.dirname(cj)
         c = json.load(open(cj))
         sid = c["id"]
@@ -265,7 +279,7 @@ def main():
             "breaks_property": sid.split("-")[0],
             "files_changed": files,
             "needs_to_manifest": NEEDS.get(sid, old.get("needs_to_manifest") or _needs_from_notes(d)),
-            "round": 7 if "-r7-" in sid else 6 if "-r6-" in sid else 5 if "-r5-" in sid else 4 if "-r4-" in sid else (3 if "-r3-" in sid else (2 if "-r2-" in sid else 1)),
+            "round": 8 if "-r8-" in sid else 7 if "-r7-" in sid else 6 if "-r6-" in sid else 5 if "-r5-" in sid else 4 if "-r4-" in sid else (3 if "-r3-" in sid else (2 if "-r2-" in sid else 1)),
             "demonstration": demos,
             "confirmed_by_me": {
                 "how": "tools/confirm_seed.sh on a scratch git worktree of /repo at %s (removed afterwards): git apply patch.diff; cargo build --workspace; "
